@@ -147,6 +147,12 @@ def setMerge (s o : List Nat) : List Nat × Bool :=
   let s' := setExtend s o
   (s', decide (s'.length > old_len))
 
+/-- `SetUnion<Vec<T>>` as the *receiver*: `Vec::extend` appends, so the length always grows when
+`other` is non-empty.  (It has no `PartialOrd`, hence is not a `Lattice` in the crate.) -/
+def setVecMerge (s o : List Nat) : List Nat × Bool :=
+  let s' := s ++ o
+  (s', decide (s'.length > s.length))
+
 def setCmp (s o : List Nat) : Option Ordering :=
   match compare s.length o.length with
   | .gt => if o.all (fun k => s.contains k) then some .gt else none
@@ -321,6 +327,31 @@ def Lat.pair (A : Lat α) (B : Lat β) : Lat (α × β) where
   lfrom o := (A.lfrom o.1, B.lfrom o.2)
   atoms _ := []
 
+/-- `#[derive(Lattice)]` on a struct with three fields (the macro emits the same per-field code
+for any number of fields) -/
+def Lat.tri (A : Lat α) (B : Lat β) (C : Lat γ) : Lat (α × β × γ) where
+  merge s o :=
+    let ra := A.merge s.1 o.1
+    let rb := B.merge s.2.1 o.2.1
+    let rc := C.merge s.2.2 o.2.2
+    ((ra.1, rb.1, rc.1), (ra.2 || rb.2) || rc.2)
+  cmp s o :=
+    cmpField (A.cmp s.1 o.1) false false fun sg og =>
+    cmpField (B.cmp s.2.1 o.2.1) sg og fun sg og =>
+    cmpField (C.cmp s.2.2 o.2.2) sg og fun sg og => finalCmp sg og
+  beq s o :=
+    if !A.beq s.1 o.1 then false else if !B.beq s.2.1 o.2.1 then false
+    else if !C.beq s.2.2 o.2.2 then false else true
+  isBot s :=
+    if !A.isBot s.1 then false else if !B.isBot s.2.1 then false
+    else if !C.isBot s.2.2 then false else true
+  isTop s :=
+    if !A.isTop s.1 then false else if !B.isTop s.2.1 then false
+    else if !C.isTop s.2.2 then false else true
+  dflt := match A.dflt, B.dflt, C.dflt with | some a, some b, some c => some (a, b, c) | _, _, _ => none
+  lfrom o := (A.lfrom o.1, B.lfrom o.2.1, C.lfrom o.2.2)
+  atoms _ := []
+
 /-! ### dom_pair.rs — `DomPair<Key, Val>` -/
 
 def Lat.domPair (K : Lat α) (V : Lat β) : Lat (α × β) where
@@ -398,7 +429,7 @@ def Lat.vec (L : Lat β) : Lat (List β) where
 inductive LTy where
   | maxN (bound : Nat) | minN (bound : Nat) | maxB | minB | unit | conflict
   | set | map (v : LTy) | withBot (t : LTy) | withTop (t : LTy)
-  | pair (a b : LTy) | domPair (k v : LTy) | vec (t : LTy)
+  | pair (a b : LTy) | domPair (k v : LTy) | vec (t : LTy) | tri (a b c : LTy)
   deriving DecidableEq, Repr
 
 def Val : LTy → Type
@@ -415,6 +446,7 @@ def Val : LTy → Type
   | .pair a b => Val a × Val b
   | .domPair a b => Val a × Val b
   | .vec t => List (Val t)
+  | .tri a b c => Val a × Val b × Val c
 
 def lat : (t : LTy) → Lat (Val t)
   | .maxN b => Lat.maxN b
@@ -430,6 +462,7 @@ def lat : (t : LTy) → Lat (Val t)
   | .pair a b => Lat.pair (lat a) (lat b)
   | .domPair a b => Lat.domPair (lat a) (lat b)
   | .vec t => Lat.vec (lat t)
+  | .tri a b c => Lat.tri (lat a) (lat b) (lat c)
 
 /-- which types implement `Atomize` (set, map of atomizable, with-bot/with-top of atomizable, unit) -/
 def atomizable : LTy → Bool
@@ -500,5 +533,6 @@ def sem : (t : LTy) → Sem (Val t)
   | .pair a b => Sem.prod (sem a) (sem b)
   | .domPair a b => Sem.prod (sem a) (sem b)
   | .vec t => Sem.vec (sem t)
+  | .tri a b c => Sem.prod (sem a) (Sem.prod (sem b) (sem c))
 
 end HvLat
